@@ -38,6 +38,32 @@ class Same:
         self.v = v
 
 
+def _v_sum_lt_10(cfg, value):
+    if sum(value) >= 10:
+        raise ValueError("sum must be below 10")
+    return value
+
+
+def _v_even(cfg, value):
+    if value % 2:
+        raise ValueError("must be even")
+    return value
+
+
+def _v_no_dup_values(cfg, value):
+    if len(set(value.values())) != len(value):
+        raise ValueError("values must be distinct")
+    return value
+
+
+# name -> (field validator handed to the library, reference predicate "value is acceptable")
+CUSTOM_VALIDATORS = {
+    "sum<10": (_v_sum_lt_10, lambda v: sum(v) < 10),
+    "even": (_v_even, lambda v: v % 2 == 0),
+    "distinct-values": (_v_no_dup_values, lambda v: len(set(v.values())) == len(v)),
+}
+
+
 # ---------------------------------------------------------------------------------------------
 # building the real field
 # ---------------------------------------------------------------------------------------------
@@ -45,6 +71,9 @@ def mk_field(spec, schemas=None):
     import cincoconfig as cc
     k = spec["k"]
     o = dict(spec.get("o", {}))
+    vname = o.pop("validator", None)
+    if vname:
+        o["validator"] = CUSTOM_VALIDATORS[vname][0]
     if "default" in o:
         o["default"] = V.dec(o["default"])
     if o.pop("default_callable", False):
@@ -202,7 +231,11 @@ FALSE_TOKENS = ("f", "false", "0", "off", "no", "n")
 def ref_validate(spec, v, env=None):
     """-> ("ok", normal form) | ("rej", reason) | ("undef", why)  (undef: outside the reference)"""
     try:
-        return ("ok", _validate(spec, v, env or {}))
+        norm = _validate(spec, v, env or {})
+        vname = spec.get("o", {}).get("validator")
+        if vname and norm is not None and not CUSTOM_VALIDATORS[vname][1](norm):
+            raise Rej("custom validator")
+        return ("ok", norm)
     except Rej as r:
         return ("rej", str(r))
     except _Undef as u:
